@@ -276,6 +276,7 @@ def scenario(lines):
                 clients.setdefault(int(o[1]), {})["tclose"] = t0
             elif o[0] == "http_stop":
                 tstop = t0
+    clients = {s: c for s, c in clients.items() if "hc" in c}
     for s, c in clients.items():
         # follow the write chain from the connect handler
         stream = b""
